@@ -194,3 +194,14 @@ def crash_signature(exc):
 def short(s, n=160):
     r = repr(s)
     return r if len(r) <= n else r[:n] + '...'
+
+
+def leaf_starting_at(module, pos):
+    """The leaf whose value starts at ``pos`` (get_leaf_for_position returns the one *ending* there)."""
+    try:
+        leaf = module.get_leaf_for_position(tuple(pos), include_prefixes=True)
+    except ValueError:
+        return None
+    while leaf is not None and tuple(leaf.start_pos) != tuple(pos) and tuple(leaf.end_pos) <= tuple(pos):
+        leaf = leaf.get_next_leaf()
+    return leaf
